@@ -333,12 +333,11 @@ structure UpdPre (id1 id2 loc : Bytes) (t₀ : Target) (n r : Bytes) (d : Nat) (
   holds : Holds [id1, id2] t₀ n d X
   own : RunidOwn t₀ n
   fresh : n ≠ loc → LocOk [id1, id2] t₀ loc d X
-  orphan : n = loc → ridOf [id1, id2] (t₀.cps d n) = id1 → Carrier id2 t₀ n d X
   hnow : -(2^63 : Int) ≤ now ∧ now < 2^63
 
 /-- the requests after the HSET of the new key and the repointing of the hash -/
-def updRest (n oldId id1 : Bytes) (o2 : List Nat) : List Req :=
-  if oldId ≠ [] ∧ oldId ≠ qmark then
+def updRest (n oldId id1 loc : Bytes) (o2 : List Nat) : List Req :=
+  if oldId ≠ [] ∧ oldId ≠ qmark ∧ ¬ (oldId = id1 ∧ n = loc) then
     o2.map (fun db => Req.hdelCp db n (fourKeys oldId))
       ++ (if oldId ≠ id1 then [Req.hdelHash oldId] else [])
   else []
@@ -350,19 +349,21 @@ theorem updateReqs_shape (ver : Bytes) {t₀ : Target} {loc id1 id2 n r : Bytes}
     updateReqs ver t₀ loc [id1, id2] o1 o2 now =
       if n ≠ loc ∨ id1 ≠ r then
         Req.hsetCp d loc (cpEntries { c with runId := id1 } now) :: Req.hsetHash id1 loc ::
-          updRest n c.runId id1 o2
+          updRest n c.runId id1 loc o2
       else [] := by
   have hd : ¬ ((d : Int) < 0) := by omega
   simp only [updateReqs, hn, hn0, ne_eq, not_false_eq_true, if_true, hgc, hd, if_false,
     Int.toNat_natCast, updRest, List.cons_append, List.nil_append]
 
 theorem safe_updRest {id1 id2 A loc n oldId : Bytes} {d : Nat} (o2 : List Nat)
-    (hA : n = loc → oldId ≠ A) :
-    ∀ q ∈ updRest n oldId id1 o2, SafeReq id1 id2 A loc id1 d q := by
+    (hA : n = loc → oldId ≠ id1 → oldId ≠ A) :
+    ∀ q ∈ updRest n oldId id1 loc o2, SafeReq id1 id2 A loc id1 d q := by
   intro q hq
   unfold updRest at hq
   split at hq
-  · rcases List.mem_append.mp hq with hq | hq
+  · rename_i hcond
+    replace hA : n = loc → oldId ≠ A := fun h => hA h (fun h1 => hcond.2.2 ⟨h1, h⟩)
+    rcases List.mem_append.mp hq with hq | hq
     · obtain ⟨db, _, rfl⟩ := List.mem_map.mp hq
       show n ≠ loc ∨ ∃ ρ, (∀ k ∈ fourKeys oldId, k.1 = ρ) ∧ (ρ, Kind.offset) ∈ fourKeys oldId ∧
         (db ≠ d ∨ ρ ≠ A)
@@ -473,32 +474,25 @@ theorem update_prefix_inv' (ver : Bytes) {id1 id2 loc : Bytes} {t₀ : Target} {
         · exact hold d e he' hs
       · exact hold db e he hs
     -- choose the carrier and establish the invariant under the new key
-    have hinv2 : ∃ A, (A = id1 ∨ A = id2) ∧ (n = loc → c'.runId ≠ A) ∧
+    have hinv2 : ∃ A, (A = id1 ∨ A = id2) ∧ (n = loc → c'.runId ≠ id1 → c'.runId ≠ A) ∧
         Inv id1 id2 A t₂ loc id1 d X := by
       by_cases hnl : n = loc
       · have hh2 : Holds [id1, id2] t₂ loc d X := by
           have := hholds1.congr (t' := t₂) (fun db => hcps2 db n)
           rw [hnl] at this; exact this
-        by_cases hold : c'.runId = id1
-        · refine ⟨id2, Or.inr rfl, fun _ => by rw [hold]; exact P.hne, hhash2, hh2, ?_, hridok2⟩
-          have hcar := P.orphan hnl (by rw [← hrid']; exact hold)
-          unfold Carrier at hcar ⊢
-          rw [hcps2, hcps1]; simp only [and_self, if_true]
-          obtain ⟨e1, e2⟩ := written_other (fs := t₀.cps d loc) (c := c') (now := now) P.hne
-          rw [e1, e2]; rw [hnl] at hcar; exact hcar
-        · refine ⟨id1, Or.inl rfl, fun _ => hold, hhash2, hh2, ?_, hridok2⟩
-          unfold Carrier
-          rw [hcps2, hcps1]; simp only [and_self, if_true]
-          constructor
-          · apply written_off_fresh w ((matchId_one id1 id1).mpr rfl)
-            intro e _ hs
-            rw [offSel_iff, matchId_one] at hs
-            show (e.rid, e.kind) = (id1, Kind.offset)
-            rw [hs.1, hs.2]
-          · apply written_rid w ((matchId_one id1 id1).mpr rfl)
-            intro e he hs
-            rw [ridSel_iff, matchId_one] at hs
-            rw [P.own d e (hnl ▸ he) hs.2, hs.1]; exact P.h1q
+        refine ⟨id1, Or.inl rfl, fun _ h => h, hhash2, hh2, ?_, hridok2⟩
+        unfold Carrier
+        rw [hcps2, hcps1]; simp only [and_self, if_true]
+        constructor
+        · apply written_off_fresh w ((matchId_one id1 id1).mpr rfl)
+          intro e _ hs
+          rw [offSel_iff, matchId_one] at hs
+          show (e.rid, e.kind) = (id1, Kind.offset)
+          rw [hs.1, hs.2]
+        · apply written_rid w ((matchId_one id1 id1).mpr rfl)
+          intro e he hs
+          rw [ridSel_iff, matchId_one] at hs
+          rw [P.own d e (hnl ▸ he) hs.2, hs.1]; exact P.h1q
       · have hfr := P.fresh hnl
         refine ⟨id1, Or.inl rfl, fun h => absurd h hnl, hhash2, ?_, ?_, hridok2⟩
         · refine ⟨P.holds.nonneg, ?_, ?_, ?_, ?_⟩
@@ -538,7 +532,7 @@ theorem update_prefix_inv' (ver : Bytes) {id1 id2 loc : Bytes} {t₀ : Target} {
             exact ⟨Or.inl hs.1, hs.2⟩
     obtain ⟨A, hA, hAold, hinv⟩ := hinv2
     have hsafe := safe_updRest (id1 := id1) (id2 := id2) (A := A) (loc := loc) (d := d) o2 hAold
-    have := inv_applyAll P.hne P.h1 hA ((updRest n c'.runId id1 o2).take k) hinv
+    have := inv_applyAll P.hne P.h1 hA ((updRest n c'.runId id1 loc o2).take k) hinv
       (fun q hq => hsafe q (mem_take hq))
     exact ⟨loc, id1, P.hloc, this.hash, this.holds, fun _ _ => ⟨rfl, rfl⟩, fun h => absurd trivial h⟩
 
